@@ -6,6 +6,7 @@ import (
 	"context"
 	"database/sql"
 	"errors"
+	"strings"
 )
 
 // Contract model of database/sql over SQLite for the statements the repository issues.
@@ -289,6 +290,19 @@ func matches(key string, row dbRow, conds []int, args []any) bool {
 					return false
 				}
 			}
+		case 4: // col = ? COLLATE NOCASE: ASCII case folding, on the TEXT key only
+			if ai >= len(args) {
+				Unsupported("WHERE clause with more placeholders than arguments")
+			}
+			a := args[ai]
+			ai++
+			ks, ok := a.(string)
+			if c != colLogID || !ok {
+				Unsupported("COLLATE NOCASE comparison other than logID with a string")
+			}
+			if strings.ToLower(key) != strings.ToLower(ks) {
+				return false
+			}
 		case 2: // IS NULL
 			if c == colLogID || colOf(row, c) != nil {
 				return false
@@ -305,7 +319,7 @@ func matches(key string, row dbRow, conds []int, args []any) bool {
 func nPlaceholders(conds []int) int {
 	n := 0
 	for _, cd := range conds {
-		if cd%10 == 1 {
+		if cd%10 == 1 || cd%10 == 4 {
 			n++
 		}
 	}
